@@ -53,9 +53,11 @@ def histories(rng, tier):
                 if tier == "quick" and rng.random() < 0.4:
                     continue
                 acts = list(pre) + [("dump",), ("sample", c)]
-                if rng.random() < 0.2:
-                    acts.insert(1, ("threads", 2))
                 hs.append((rng.randrange(1 << 30), acts))
+                if c >= (1 << 63) - 1 and n >= 1:
+                    # the same under the rayon arm, several draws (the rounded cells reach the word's end only sometimes)
+                    th = list(pre[:1]) + [("threads", rng.choice([2, 3]))] + list(pre[1:]) + [("dump",)] + [("sample", c)] * 4
+                    hs.append((rng.randrange(1 << 30), th))
     # registers with a past (grown, shrunk, regrown, multiplied, measured before): many small-count histograms each,
     # so that both correction branches (deficit and surplus) are taken
     def observe(r, n):
@@ -132,8 +134,13 @@ if __name__ == "__main__":
     binary = build_harness()
     au = audit.audit(PROP)
     hs = histories(run.rng, tier)
+    def rounding_of_a_parallel_sum(acts, r, rm, k):
+        # a threaded register sums the draws in another order than the model; with 2^53 shots and more one ulp of that
+        # sum moves a cell by hundreds of shots, so the cells are not compared there (the three clauses still are)
+        return any(a[0] == "threads" for a in acts) and any(a[0] == "sample" and a[1] >= (1 << 53) for a in acts)
     n, dis, recs = regcheck.run_histories(run, binary, hs, PROP, oracle,
-                                          "C16 sample_all histogram with recorded normal draws", "C16_histogram")
+                                          "C16 sample_all histogram with recorded normal draws", "C16_histogram",
+                                          near_threshold=rounding_of_a_parallel_sum)
     nsoak = soak(run, binary, run.rng, tier)
     n += nsoak
     cs = [generic.Case(regcheck.hist_harness(s, a)[:300], None, None, None, kind="n=%d" % a[0][1]) for s, a in hs]
